@@ -194,6 +194,9 @@ def write(fa, schema, d, disable):
     return fo.getvalue()
 
 
+_CR_COUNT = {}
+
+
 def check(fa, res, raw, parsed, node, defs, d, disable, seen):
     kk = (key(d), disable)
     if kk in seen:
@@ -261,6 +264,20 @@ def check(fa, res, raw, parsed, node, defs, d, disable, seen):
         except Exception as e:
             res.add(Violation("c09.closure", f"read-raised:{type(e).__name__}", f"reading with {opts} raised {type(e).__name__}: {e} | {short(info, 400)}", dict(info, reader_opts=opts)))
             continue
+        # the same options given to the container readers report the same value
+        cr_key = (id(seen), repr(opts))
+        if not hk and _CR_COUNT.get(cr_key, 0) < 6:  # a handful of data per schema and option set: the container path adds the options, not the data
+            _CR_COUNT[cr_key] = _CR_COUNT.get(cr_key, 0) + 1
+            try:
+                cfo = io.BytesIO()
+                fa.writer(cfo, parsed, [copy.deepcopy(d)], sync_marker=b"9" * 16, disable_tuple_notation=disable)
+                via_reader = list(fa.reader(io.BytesIO(cfo.getvalue()), **opts))
+                via_blocks = [x for blk in fa.block_reader(io.BytesIO(cfo.getvalue()), **opts) for x in blk]
+            except Exception as e:
+                via_reader = via_blocks = f"{type(e).__name__}: {e}"
+            if not (isinstance(via_reader, list) and len(via_reader) == 1 and same(via_reader[0], back) and isinstance(via_blocks, list) and len(via_blocks) == 1 and same(via_blocks[0], back)):
+                res.add(Violation("c09.closure", "container-readers-report-differently", f"options {opts}: schemaless_reader gives {short(back, 150)}, reader {short(via_reader, 150)}, block_reader {short(via_blocks, 150)} | {short(info, 300)}", dict(info, reader_opts=opts)))
+                continue
         try:
             again = write(fa, parsed, back, False)
         except Exception as e:
